@@ -10,10 +10,10 @@ import re
 import vf
 
 META = {
-    "text": "19 theorems (Coq, no axioms) over a Gallina model of txList/MemPool. FULL: the pool invariant (per-account lists strictly "
+    "text": "21 theorems (Coq, no axioms) over a Gallina model of txList/MemPool. FULL: the pool invariant (per-account lists strictly "
             "nonce-sorted above the list's base nonce, ready = maximal gap-free prefix, no duplicate hash or (account, nonce), hash cache = "
             "transactions in the lists, length/orphan counters = sums) is kept by every atomic step (unlocked put check, locked insert, block "
-            "arrival with setStateDB's scan flags and resetAll, removeTx, eviction, getUnconfirmed, get), hence by every interleaving of any "
+            "arrival with setStateDB's scan flags and resetAll, removeTx, eviction incl. a pass cut short by its work timeout between accounts, getUnconfirmed, get), hence by every interleaving of any "
             "number of threads and every sequential run; a producer receives base+1, base+2, ... per account, also under a size budget; after "
             "a processed notification no pooled nonce of a scanned account is <= the new state nonce (advance or rewind); a child of the best "
             "block scans every list. PARTIAL: accounts a non-child block does not scan keep a stale base (theorem "
@@ -98,8 +98,12 @@ def gen_case(rng, size="m", named_p=0.3):
             cur = st
         elif r < 0.82:
             ops.append({"op": "remove", "tx": rng.randrange(len(txs))})
-        elif r < 0.86:
+        elif r < 0.845:
             ops.append({"op": "evict", "accs": [a for a in range(k) if rng.random() < 0.5]})
+        elif r < 0.86:
+            # an eviction pass whose work timeout expires during the pass (it may stop between accounts)
+            ops.append({"op": "evictto", "accs": [a for a in range(k) if rng.random() < 0.8],
+                        "timeout_ns": rng.choice([0, 1, 100, 500, 2000, 10000, 10 ** 9])})
         elif r < 0.92:
             # mostly the whole pool; sometimes a small block body budget (proto size of a tx here is about 110 bytes)
             ops.append({"op": "get", "max": (1 << 30) if rng.random() < 0.5 else
@@ -109,6 +113,21 @@ def gen_case(rng, size="m", named_p=0.3):
         else:
             ops.append({"op": "exist", "tx": rng.randrange(len(txs))})
     return {"naccs": k, "named": named, "txs": txs, "init": init, "ops": ops}
+
+
+def big_evict_case(rng, naccs, per, timeout_ns, passes):
+    """A backlog large enough that one eviction pass outlasts its work timeout: the pass must stop between accounts only."""
+    txs = []
+    for a in range(naccs):
+        gap = rng.randrange(per // 2, per)
+        for n in range(1, per + 1):
+            txs.append({"acc": a, "nonce": n if n < gap else n + 1, "amount": 1, "variant": 0, "pad": 0})   # orphans above the gap
+    ops = [{"op": "bulkput", "from": 0, "to": len(txs)}]
+    for _ in range(passes):
+        ops.append({"op": "evictto", "accs": list(range(naccs)), "timeout_ns": timeout_ns})
+        ops.append({"op": "exist", "tx": rng.randrange(len(txs))})
+    ops.append({"op": "evict", "accs": list(range(naccs))})
+    return {"naccs": naccs, "named": [False] * naccs, "txs": txs, "init": [[0, 10 ** 7]] * naccs, "ops": ops, "_nomodel": True}
 
 
 def corpus_cases(ctx):
@@ -170,7 +189,7 @@ def coq_case(case, obs):
     st = lambda s: "[" + ";".join("(%d,%d%%Z)" % (n, b) for n, b in s) + "]"
     bids = block_ids(case)
     steps = []
-    for op, o, bi in zip(case["ops"], obs[1:], bids):
+    for (op, o, bi), prev in zip(zip(case["ops"], obs[1:], bids), obs):
         kind = op["op"]
         if kind == "put":
             e = "EPut %d%%nat" % op["tx"]
@@ -186,6 +205,10 @@ def coq_case(case, obs):
             e = "ERacePut %d%%nat %d %d %d %s %s" % (op["tx"], bi[0], bi[1], bi[2], st(op["state"]), lN(op["dirty"]))
         elif kind == "evict":
             e = "EEvict %s" % lN(op["accs"])
+        elif kind == "evictto":
+            # the pass may stop between accounts: the model evicts exactly the accounts that disappeared
+            gone = sorted({l["acc"] for l in prev["lists"]} - {l["acc"] for l in o["lists"]})
+            e = "EEvict %s" % lN([a for a in gone if a in op["accs"]])
         elif kind == "unconf":
             e = "EUnconf %s" % lN(op["accs"])
         elif kind == "get" and op.get("max", 1 << 30) < (1 << 30):
@@ -262,6 +285,10 @@ def step_predicates(case, obs):
                 if l is None or ns != [l["base"] + 1 + j for j in range(len(ns))] or (len(ns) != l["ready"] and not limited) \
                         or got != l["txs"][:len(got)]:
                     fails.append(("get-not-gapfree-from-base", "get", si, {"acc": a, "nonces": ns, "list": l}))
+        if op["op"] == "evictto":
+            gone = {l["acc"] for l in obs[si]["lists"]} - {l["acc"] for l in o["lists"]}
+            if not gone <= set(op["accs"]):
+                fails.append(("evicted-account-not-selected", "evictto", si, sorted(gone)))
         if op["op"] in ("block", "putrace"):
             bi = bids[si]
             if bi[3] != "same":
@@ -467,6 +494,10 @@ def run(ctx):
     nrand = 130 if quick else 6000
     for i in range(nrand):
         cases.append(gen_case(rng, "m" if (quick or i % 4) else "l"))
+    # eviction passes interrupted by the work timeout (the pass outlasts the timeout on a large backlog)
+    cases.append(big_evict_case(rng, 4, 1500 if quick else 20000, 40000 if quick else 4000000, 5))
+    if not quick:
+        cases.append(big_evict_case(rng, 6, 3000, 100000, 8))
     obs = run_engine(ctx, binp, cases, "seq")
 
     # ---- direct predicate on the implementation
@@ -475,7 +506,13 @@ def run(ctx):
         for name, opk, si, det in step_predicates(c, o):
             pred_fail.append((name, opk, ci, si, det))
     # ---- correspondence
-    bad, out = eval_cases(ctx, cases, obs, "seq")
+    midx = [i for i, c in enumerate(cases) if not c.get("_nomodel")]
+    mbad, out = eval_cases(ctx, [cases[i] for i in midx], [obs[i] for i in midx], "seq")
+    bad = None
+    if mbad is not None:
+        bad = [0] * len(cases)
+        for i, b in zip(midx, mbad):
+            bad[i] = b
     corr_broken = None
     if bad is None:
         corr_broken = ("pool correspondence could not be evaluated", out[-2000:])
